@@ -36,6 +36,37 @@ def push_sites(P, fn):
     return out
 
 
+def closure_drains(P, fn, mentions):
+    """blocks of `fn` that hand a whole collection to the timer heap through a closure:
+    `coll.into_iter().for_each(|t| self.add_timer(t))` (and iter()/drain(..) variants).  `mentions(expr)` says whether
+    an expression is (an iteration over) the collection in question."""
+    out = []
+    tr = tracer(P, fn)
+    for b, t in fn.calls():
+        if method(cname(t)) != "for_each" or len(t["args"]) < 2:
+            continue
+        src = tr.operand(t["args"][0], endpos(fn, b))
+        if not mentions(src):
+            continue
+        if any(x[0] == "call" and method(strip_generics(x[1])) in ("take", "skip", "filter", "step_by", "take_while", "skip_while", "filter_map") for x in walk(src)):
+            continue
+        cls = [x for x in walk(tr.operand(t["args"][1], endpos(fn, b))) if x[0] == "closure" and x[1] in P.fns]
+        for c in cls:
+            cf = P.fns[c[1]]
+            ctr = tracer(P, cf)
+            pushes = []
+            for cb, ct in cf.calls():
+                k = is_timer_push(P, cf, cb, ct)
+                if k == "timers" and len(ct["args"]) > 1:
+                    e = ctr.operand(ct["args"][1], endpos(cf, cb))
+                    if any(x[0] == "param" and x[1] >= 2 for x in walk(e)):
+                        pushes.append(cb)
+            # unconditional inside the closure
+            if pushes and all(any(cf.dominates(pb, r) for pb in pushes) for r in cf.exits()):
+                out.append(b)
+    return out
+
+
 def _reads_field(e, field):
     return any(x[0] == "field" and x[2] == field for x in walk(e))
 
